@@ -14,7 +14,7 @@ import (
 
 func (g *Gen) newFnCtx(fn *ssa.Function, sp *FuncSpec) *FnCtx {
 	fc := &FnCtx{g: g, fn: fn, spec: sp, declared: map[string]string{}, sorts: map[string]string{}, assumpt: map[string]bool{},
-		locals: map[*ssa.Alloc]bool{}, callOrd: map[string]int{}, closures: map[ssa.Value]*ssa.MakeClosure{}, propFlags: map[int][]propFlag{}, ground: map[string]bool{},
+		locals: map[*ssa.Alloc]bool{}, callOrd: map[string]int{}, closures: map[ssa.Value]*ssa.MakeClosure{}, propFlags: map[int][]propFlag{}, ground: map[string]bool{}, localMaps: map[string]bool{},
 		modMemo: map[*ssa.Function]*ModSet{}, modBusy: map[*ssa.Function]bool{}}
 	if sp.Mode == "bv" {
 		fc.m = M{ModeBV}
@@ -241,6 +241,12 @@ func (g *Gen) verifyFunction(fn *ssa.Function, sp *FuncSpec) *FnCtx {
 		if fc.exit != nil {
 			fc.addObligAt(&Oblig{Name: sp.Name + "/cover:return", Kind: "cover", Cover: true, goal: fc.exit.guard, Tags: sp.allTags(), Text: "a return is reachable under the assumptions"}, nil, 1<<30)
 		}
+	}
+	for _, c := range sp.Asserts {
+		if !c.bound && fc.modeOK(c) {
+			fc.errs = append(fc.errs, fmt.Sprintf("%s: call-site assertion %q does not bind to a call (site %s)", sp.Name, c.Text, c.Site))
+		}
+		c.bound = false
 	}
 	fc.applyAxioms()
 	return fc
